@@ -52,7 +52,8 @@ func GenLCase(seed uint64) *LCase {
 	in := func(p string) string { return path.Join(c.Root, p) }
 	// inside files, at different depths
 	inside := []string{"main.sysl", "lib/a.sysl", "lib/deep/b.sysl", "lib/deep/er/c.sysl", "x.sysl"}
-	outside := []string{"/secret/s.sysl", "/w/other/o.sysl", "/w/s.sysl", "/o.sysl", "/etc/e.sysl", "/projx/p.sysl", "/w/projx/p.sysl"}
+	outside := []string{"/secret/s.sysl", "/w/other/o.sysl", "/w/s.sysl", "/o.sysl", "/etc/e.sysl", "/projx/p.sysl", "/w/projx/p.sysl",
+		"/Proj/p.sysl", "/w/Proj/p.sysl", "/W/proj/p.sysl", "/w/a.b/Proj/p.sysl"} // incl. case variants of the roots
 	var files []*lfile
 	for i, p := range inside {
 		files = append(files, &lfile{abs: in(p), app: fmt.Sprintf("In%d", i)})
@@ -76,8 +77,8 @@ func GenLCase(seed uint64) *LCase {
 	}
 	var siblings []*lfile // directories sharing the root's name as a prefix: /projx, /w/projx
 	for _, f := range files[nIn:] {
-		if strings.HasPrefix(f.abs, c.Root) && c.Root != "/" {
-			siblings = append(siblings, f)
+		if c.Root != "/" && (strings.HasPrefix(f.abs, c.Root) || strings.HasPrefix(strings.ToLower(f.abs), strings.ToLower(c.Root)+"/")) {
+			siblings = append(siblings, f) // prefix siblings and case variants of the root
 		}
 	}
 	for k := 0; k < r.Range(1, 6); k++ {
